@@ -176,7 +176,7 @@ def order_correspondence(ctx):
 
 
 # ---- the property, directly -----------------------------------------------------------------------------------
-def run_real(order, L, dt, k_total, jumps, state_name):
+def run_real(order, L, dt, k_total, jumps, state_name, warm=None):
     from mqt.yaqs import simulator
     from mqt.yaqs.core.data_structures.networks import MPO, MPS
     from mqt.yaqs.core.data_structures.noise_model import NoiseModel
@@ -185,6 +185,9 @@ def run_real(order, L, dt, k_total, jumps, state_name):
     obs = [Observable("z", i) for i in range(L)] + [Observable("x", 0)]
     p = AnalogSimParams(obs, elapsed_time=k_total * dt, dt=dt, order=order, sample_timesteps=True, show_progress=False,
                         threshold=1e-14, max_bond_dim=64)
+    if warm is not None:
+        # history: the same parameter object served an earlier run with ANOTHER schedule (possibly none)
+        simulator.run(MPS(L, state=state_name), MPO.ising(L, 1.0, 0.7), p, NoiseModel([], scheduled_jumps=[jump_dict(j, dt) for j in warm]), parallel=False)
     nm = NoiseModel([], scheduled_jumps=[jump_dict(j, dt) for j in jumps])
     simulator.run(MPS(L, state=state_name), MPO.ising(L, 1.0, 0.7), p, nm, parallel=False)
     return np.array([np.real(o.results) for o in obs]), len(p.times)
@@ -229,7 +232,7 @@ def run_dense(L, dt, k_total, jumps, state_name):
 
 
 def jump_oracle(args):
-    real, n = run_real(args["order"], args["L"], args["dt"], args["k_total"], args["jumps"], args["state"])
+    real, n = run_real(args["order"], args["L"], args["dt"], args["k_total"], args["jumps"], args["state"], warm=args.get("warm"))
     if n != args["k_total"] + 1:
         return None  # grid length is C15's business
     ref = run_dense(args["L"], args["dt"], args["k_total"], args["jumps"], args["state"])
@@ -240,7 +243,7 @@ def jump_oracle(args):
         kmin = min(j[0] for j in args["jumps"])
         when = "before" if bad[0] < kmin else "at/after"
         return (f"order {args['order']}: results differ from 'apply once at t_k' by {err[bad[0]]:.3e} at column {bad[0]} "
-                f"({when} the scheduled index {kmin})")
+                f"({when} the scheduled index {kmin})" + (f"; the parameter object had served a run with the schedule {args['warm']} before" if args.get("warm") is not None else ""))
     return None
 
 
@@ -290,6 +293,8 @@ def search(ctx):
         if any(j[2] == "lowering" for j in jumps) and state == "zeros":
             state = "x+"
         args = dict(order=order, L=L, dt=0.05 if L == 2 else 0.02, k_total=k_total, jumps=jumps, state=state)
+        if i % 3 == 1:
+            args["warm"] = [] if i % 2 else [(max(1, (jumps[0][0] + 1) % (k_total + 1)), [0], "x")]
         try:
             with common.time_limit(120):
                 why = jump_oracle(args)
